@@ -77,3 +77,25 @@ def ai_reindents_human_lines_then_stash_roundtrip():
         return s.kinds()
     finally:
         s.destroy()
+
+
+def force_switch_to_current_branch_discards_pending():
+    """D31 (fixed): AI edits pending; `git switch --discard-changes main` (HEAD unchanged) discards them; a person types
+    at the same positions; commit."""
+    from ..ops import Hist
+
+    class S(Script, Hist):
+        pass
+    s = S("d31", files=1)
+    try:
+        f0 = [s.line("human") for _ in range(4)]
+        s.human_write("f.txt", f0); s.commit_all("init")
+        s.ai_write("S1", "f.txt", f0[:2] + [s.line("S1"), s.line("S1")] + f0[2:])
+        s.g("switch", "-q", "--discard-changes", "main")
+        s.human_write("f.txt", f0[:2] + [s.line("human"), s.line("human")] + f0[2:])
+        s.commit_all("human")
+        s.check_notes("w")
+        s.check_blame_tip("w", rule="C03x", complete=False)
+        return s.kinds()
+    finally:
+        s.destroy()
